@@ -389,7 +389,7 @@ def run(ctx):
     n_grid = 0
     for cfg in cfgs:
         res = ctx.mc("MC_CellGeom", cfg, env={"BASE_FILE": _base_file("hexflower")}, timeout=6 * 3600,
-                     heap=ctx.pick("4g", "12g"))
+                     heap=ctx.pick("2g", "8g"))
         for inst in res.printed:
             key = json.dumps(inst["P"])
             if key in seen:
@@ -418,7 +418,7 @@ def run(ctx):
     tcfg = ctx.pick("MC_CellGeom_tissue.cfg", "MC_CellGeom_tissue_thorough.cfg")
     tjobs = []
     for b in bases:
-        res = ctx.mc("MC_CellGeom", tcfg, env={"BASE_FILE": _base_file(b)}, timeout=3600, heap="2g")
+        res = ctx.mc("MC_CellGeom", tcfg, env={"BASE_FILE": _base_file(b)}, timeout=3600, heap="1g")
         for inst in res.printed:
             case += 1
             tjobs.append((case, b, inst, ctx.seed))
@@ -457,9 +457,9 @@ def run(ctx):
     t0 = time.time()
     # ---- judged by TLC ----------------------------------------------------------------------
     verdicts = {}
-    BATCH = 32000     # bounds the size of one ndjson shard (TLC reads a shard into memory at once)
+    BATCH = 16000     # bounds the size of one ndjson shard (TLC reads a shard into memory at once)
     for b in range(0, len(results), BATCH):
-        verdicts.update(ctx.validate("Trace_CellGeom", results[b:b + BATCH], timeout=6 * 3600, heap="3g"))
+        verdicts.update(ctx.validate("Trace_CellGeom", results[b:b + BATCH], timeout=6 * 3600, heap="1g"))
     for cid, vjs in verdicts.items():
         for vj in vjs:
             for d in vj.get("drift", []):
@@ -503,5 +503,5 @@ def replay(ctx, payload):
         with core.quiet_stdout():
             c, evs = _voronoi_job((1, inp["seed"]))
     ctx.add_case(inp)
-    v = ctx.validate("Trace_CellGeom", [(c, evs)], heap="3g")
+    v = ctx.validate("Trace_CellGeom", [(c, evs)], heap="1g")
     ctx.judge(v, {c: inp})
